@@ -404,8 +404,14 @@ def gen_toplevel_call(src, world, cname, inplace, bad_rate):
     invalidators = sorted({i for a in attrs.values() for i in (a.get("invalidated_by") or ()) if i in attrs})
     if invalidators and src.chance(1, 3):
         # an attribute that invalidates dependants goes first, so that a later failing attribute exercises the rollback
-        chosen.append(src.pick(invalidators))
+        first = src.pick(invalidators)
+        chosen.append(first)
         n = max(n, 2)
+        deps = [d for d, a in attrs.items() if first in (a.get("invalidated_by") or ()) and d != first]
+        if deps and src.chance(1, 2):
+            # ... followed by one of its dependants: keywords are applied in order, so the dependant's new value / transform
+            # starts from the default the first keyword has just restored
+            chosen.append(src.pick(deps))
     for _ in range(n):
         a = src.pick(names)
         if a not in chosen:
